@@ -1481,4 +1481,292 @@ theorem fit_isoFit_optimal_mean (α : K) (inc : Bool) (X y wl tx ty : List K)
 
 end Optimal
 
+/-! ## I. Row order with conflicting weights on duplicate `(X, y)` rows -/
+
+section RowOrderGeneral
+
+/-- a total score over the columns of a list of rows, for a sequence that is a function of the
+row's `(X, y)`, is a sum over the rows -/
+theorem fit_total_rows_key (S : Obs K → K → K) (φ : K × K → K) (l : List (Row K)) :
+    total S ((l.map (·.y)).zip (l.map (·.w))) ((l.map (fun a => (a.x, a.y))).map φ)
+      = (l.map (fun a => S (a.y, a.w) (φ (a.x, a.y)))).sum := by
+  unfold total
+  induction l with
+  | nil => simp
+  | cons a l ih =>
+    simp only [List.map_cons, List.zip_cons_cons, List.zipWith_cons_cons, List.sum_cons]
+    rw [ih]
+
+/-- a sequence that is constant on rows with equal `(X, y)` is a function of `(X, y)` -/
+theorem fit_seq_function_of_key (l : List (Row K)) (z : List K) (hz : z.length = l.length)
+    (hc : ∀ i j (hi : i < l.length) (hj : j < l.length),
+      l[i].x = l[j].x → l[i].y = l[j].y → z[i]! = z[j]!) :
+    ∃ φ : K × K → K, z = (l.map (fun a => (a.x, a.y))).map φ := by
+  refine ⟨fun k => z[(l.map (fun a => (a.x, a.y))).idxOf k]!, ?_⟩
+  apply List.ext_getElem
+  · simp [hz]
+  · intro i h1 h2
+    have hi : i < l.length := by omega
+    rw [List.getElem_map, List.getElem_map]
+    have hmem : (l[i].x, l[i].y) ∈ l.map (fun a => (a.x, a.y)) :=
+      List.mem_map.mpr ⟨l[i], List.getElem_mem hi, rfl⟩
+    have hlt := List.idxOf_lt_length_of_mem hmem
+    have hget := List.getElem_idxOf hlt
+    rw [List.length_map] at hlt
+    rw [List.getElem_map] at hget
+    have := hc _ i hlt hi (Prod.mk.inj hget).1 (Prod.mk.inj hget).2
+    rw [this, fit_get! z i h1]
+
+/-- the total score of a sequence that is constant on rows with equal `(X, y)` does not change when
+the weights are permuted among such rows -/
+theorem fit_total_perm (S : Obs K → K → K) (l₁ l₂ : List (Row K)) (hp : l₁.Perm l₂)
+    (hkeys : l₁.map (fun a => (a.x, a.y)) = l₂.map (fun a => (a.x, a.y)))
+    (z : List K) (hz : z.length = l₁.length)
+    (hc : ∀ i j (hi : i < l₁.length) (hj : j < l₁.length),
+      l₁[i].x = l₁[j].x → l₁[i].y = l₁[j].y → z[i]! = z[j]!) :
+    total S ((l₁.map (·.y)).zip (l₁.map (·.w))) z = total S ((l₂.map (·.y)).zip (l₂.map (·.w))) z := by
+  obtain ⟨φ, hφ⟩ := fit_seq_function_of_key l₁ z hz hc
+  have h1 := fit_total_rows_key S φ l₁
+  have h2 := fit_total_rows_key S φ l₂
+  rw [← hφ] at h1
+  rw [← hkeys, ← hφ] at h2
+  rw [h1, h2]
+  exact (hp.map _).sum_eq
+/-- the consistent score of the functionals that accept weights -/
+def fit_scoreOf (fn : Option Functional) (α : K) : Obs K → K → K :=
+  match fn with
+  | some .expectile => fun o z => o.2 * eWeight α z o * ((z - o.1) * (z - o.1))
+  | _ => fun o z => o.2 * ((o.1 - z) * (o.1 - z))
+
+/-- a successful *weighted* call of `isoReg` (so: mean or expectile) returns the unique minimiser
+of the functional's score among the sequences monotone in the requested direction -/
+theorem fit_weighted_opt_unique {fn : Option Functional} {α : K} {inc : Bool} {y w x : List K}
+    {r : List Nat} (h : isoReg fn α inc y (some w) = .ok (x, r)) :
+    (∀ zs : List K, zs.length = y.length → MonoDir inc zs →
+      total (fit_scoreOf fn α) (y.zip w) x ≤ total (fit_scoreOf fn α) (y.zip w) zs) ∧
+    (∀ zs : List K, zs.length = y.length → MonoDir inc zs →
+      total (fit_scoreOf fn α) (y.zip w) zs ≤ total (fit_scoreOf fn α) (y.zip w) x → zs = x) := by
+  obtain ⟨v, hv, _, _⟩ := isoReg_inv h
+  obtain ⟨hne, _, _, _, _⟩ := eqValidate_ok hv
+  cases fn with
+  | none => rw [isoReg_none] at h; cases h
+  | some f =>
+    have hlen : w.length = y.length := by
+      by_contra hcon
+      cases f
+      · rw [isoReg_mean_length_error α inc y w hcon] at h; cases h
+      · rw [isoReg_median_weighted] at h; cases h
+      · by_cases hα : α ≤ 0 ∨ 1 ≤ α
+        · rw [isoReg_level_error _ (Or.inl rfl) α hα] at h; cases h
+        · rw [not_or, not_le, not_le] at hα
+          rw [isoReg_expectile_length_error α hα.1 hα.2 inc y w hcon] at h; cases h
+      · by_cases hα : α ≤ 0 ∨ 1 ≤ α
+        · rw [isoReg_level_error _ (Or.inr rfl) α hα] at h; cases h
+        · rw [not_or, not_le, not_le] at hα
+          rw [isoReg_quantile_weighted α hα.1 hα.2] at h; cases h
+    cases f
+    · -- mean
+      have hpos : ∀ v ∈ w, 0 < v := by
+        intro v hv
+        by_contra hcon
+        rw [isoReg_mean_weight_error α inc y w hlen ⟨v, hv, not_lt.mp hcon⟩] at h
+        cases h
+      have hp := orient_zip_snd_pos inc (y := y) hpos
+      have hx := isoReg_mean_x hne hlen hpos h
+      constructor
+      · intro zs hz hm
+        rw [hx]
+        refine orient_optimal sqErr.S inc (y.zip w) _ ?_ ?_ zs
+          (hz.trans (zip_length_of_eq hlen).symm) hm
+        · rw [C01_expand_length _ hp, orient_length]
+        · intro zs' hl hs
+          exact C01_optimal_inc _ hp zs' hl hs
+      · intro zs hz hm hopt
+        rw [hx] at hopt ⊢
+        refine orient_unique sqErr.S inc (y.zip w) _ ?_ ?_ zs
+          (hz.trans (zip_length_of_eq hlen).symm) hm hopt
+        · rw [C01_expand_length _ hp, orient_length]
+        · intro zs' hl hs ho
+          exact C01_unique_inc _ hp zs' hl hs ho
+    · rw [isoReg_median_weighted] at h; cases h
+    · -- expectile
+      by_cases hα : α ≤ 0 ∨ 1 ≤ α
+      · rw [isoReg_level_error _ (Or.inl rfl) α hα] at h; cases h
+      rw [not_or, not_le, not_le] at hα
+      obtain ⟨hα0, hα1⟩ := hα
+      have hpos : ∀ v ∈ w, 0 < v := by
+        intro v hv
+        by_contra hcon
+        rw [isoReg_expectile_weight_error α hα0 hα1 inc y w hlen ⟨v, hv, not_lt.mp hcon⟩] at h
+        cases h
+      have hp := orient_zip_snd_pos inc (y := y) hpos
+      have hx := isoReg_expectile_x hα0 hα1 hne hlen hpos h
+      constructor
+      · intro zs hz hm
+        rw [hx]
+        refine orient_optimal (asymSq α hα0 hα1).S inc (y.zip w) _ ?_ ?_ zs
+          (hz.trans (zip_length_of_eq hlen).symm) hm
+        · rw [C03_expand_length α hα0 hα1 _ hp, orient_length]
+        · intro zs' hl hs
+          exact C03_optimal_inc α hα0 hα1 _ hp zs' hl hs
+      · intro zs hz hm hopt
+        rw [hx] at hopt ⊢
+        refine orient_unique (asymSq α hα0 hα1).S inc (y.zip w) _ ?_ ?_ zs
+          (hz.trans (zip_length_of_eq hlen).symm) hm hopt
+        · rw [C03_expand_length α hα0 hα1 _ hp, orient_length]
+        · intro zs' hl hs ho
+          exact C03_unique_inc α hα0 hα1 _ hp zs' hl hs ho
+    · by_cases hα : α ≤ 0 ∨ 1 ≤ α
+      · rw [isoReg_level_error _ (Or.inr rfl) α hα] at h; cases h
+      · rw [not_or, not_le, not_le] at hα
+        rw [isoReg_quantile_weighted α hα.1 hα.2] at h; cases h
+
+theorem fit_any_perm {w₁ w₂ : List K} (hp : w₁.Perm w₂) (p : K → Bool) : w₁.any p = w₂.any p := by
+  rw [Bool.eq_iff_iff, List.any_eq_true, List.any_eq_true]
+  constructor
+  · rintro ⟨v, hv, h⟩; exact ⟨v, hp.mem_iff.mp hv, h⟩
+  · rintro ⟨v, hv, h⟩; exact ⟨v, hp.mem_iff.mpr hv, h⟩
+
+/-- validation does not look at the order of the weights -/
+theorem fit_eqValidate_perm (fn : Option Functional) (α : K) (y : List K) {w₁ w₂ : List K}
+    (hp : w₁.Perm w₂) :
+    eqValidate fn α y (some w₂)
+      = (eqValidate fn α y (some w₁)).map (fun v => (v.1, v.2.1, w₂)) := by
+  have e := fit_any_perm hp (fun v => decide (v ≤ 0))
+  have hl := hp.length_eq
+  cases fn with
+  | none => rfl
+  | some f =>
+    simp only [eqValidate, ← e, ← hl]
+    split_ifs <;> simp [Except.map]
+
+theorem fit_eqValidate_some_ok {f : Functional} {α : K} {y wl : List K}
+    {v : Functional × K × List K} (h : eqValidate (some f) α y (some wl) = .ok v) :
+    v = (f, α, wl) := by
+  simp only [eqValidate] at h
+  split_ifs at h
+  exact (Except.ok.inj h).symm
+
+/-- ties are pooled, for any list sorted by the sort key -/
+theorem fit_ties_of_sorted {fn : Option Functional} {α : K} {inc : Bool} (l : List (Row K))
+    (hl : l.Pairwise (fun a b => rowLe inc a b = true))
+    (wopt : Option (List K)) {yiso : List K} {r : List Nat}
+    (h : isoReg fn α inc (l.map (·.y)) wopt = .ok (yiso, r))
+    (i j : Nat) (hi : i < l.length) (hj : j < l.length) (hx : l[i].x = l[j].x) :
+    yiso[i]! = yiso[j]! := by
+  have hlen := isoReg_length h
+  rw [List.length_map] at hlen
+  have hx' : (l.map (·.x))[i]! = (l.map (·.x))[j]! := by
+    rw [fit_get! _ i (by simpa using hi), fit_get! _ j (by simpa using hj), List.getElem_map,
+      List.getElem_map, hx]
+  rcases le_total i j with hij | hij
+  · exact fit_isoReg_run_const h i j hij (by simpa using hj)
+      (fit_tieRun_of_sorted inc _ hl i j hj hx')
+  · exact (fit_isoReg_run_const h j i hij (by simpa using hi)
+      (fit_tieRun_of_sorted inc _ hl j i hi hx'.symm)).symm
+
+/-- **Weights may be permuted among rows with identical `(X, y)`**: the isotonic fit of a sample
+sorted by the sort key does not depend on which of the admissible sorted orders is used, even when
+duplicate `(X, y)` rows carry different weights.  Proof: both fits are constant on `X` ties, the
+score of such a sequence is a sum over rows, and the minimiser is unique. -/
+theorem fit_isoReg_perm_weights (fn : Option Functional) (α : K) (inc : Bool)
+    (s₁ s₂ : List (Row K)) (hs : s₁.Perm s₂)
+    (hs₁ : s₁.Pairwise (fun a b => rowLe inc a b = true))
+    (hs₂ : s₂.Pairwise (fun a b => rowLe inc a b = true))
+    (hkeys : s₁.map (fun a => (a.x, a.y)) = s₂.map (fun a => (a.x, a.y))) :
+    isoReg fn α inc (s₁.map (·.y)) (some (s₁.map (·.w)))
+      = isoReg fn α inc (s₂.map (·.y)) (some (s₂.map (·.w))) := by
+  have hy : s₁.map (·.y) = s₂.map (·.y) := by
+    have := congrArg (List.map Prod.snd) hkeys
+    simpa [List.map_map, Function.comp_def] using this
+  have hlen12 : s₁.length = s₂.length := hs.length_eq
+  have hxget : ∀ i (h1 : i < s₁.length) (h2 : i < s₂.length), s₂[i].x = s₁[i].x ∧ s₂[i].y = s₁[i].y := by
+    intro i h1 h2
+    have : (s₁.map (fun a => (a.x, a.y)))[i]'(by simpa using h1)
+        = (s₂.map (fun a => (a.x, a.y)))[i]'(by simpa using h2) := by
+      simp only [hkeys]
+    rw [List.getElem_map, List.getElem_map] at this
+    exact ⟨(Prod.mk.inj this).1.symm, (Prod.mk.inj this).2.symm⟩
+  rw [← hy]
+  rw [eq_isoReg, eq_isoReg, fit_eqValidate_perm fn α _ (hs.map (·.w))]
+  cases hv : eqValidate fn α (s₁.map (·.y)) (some (s₁.map (·.w))) with
+  | error e => rfl
+  | ok v =>
+    -- both calls succeed
+    have h₁ : isoReg fn α inc (s₁.map (·.y)) (some (s₁.map (·.w)))
+        = .ok ((eqOut inc (s₁.map (·.y)) v).1, (eqOut inc (s₁.map (·.y)) v).2) := by
+      rw [eq_isoReg, hv]; rfl
+    have h₂ : isoReg fn α inc (s₁.map (·.y)) (some (s₂.map (·.w)))
+        = .ok ((eqOut inc (s₁.map (·.y)) (v.1, v.2.1, s₂.map (·.w))).1,
+               (eqOut inc (s₁.map (·.y)) (v.1, v.2.1, s₂.map (·.w))).2) := by
+      rw [eq_isoReg, fit_eqValidate_perm fn α _ (hs.map (·.w)), hv]; rfl
+    show Except.ok (eqOut inc (s₁.map (·.y)) v)
+      = Except.ok (eqOut inc (s₁.map (·.y)) (v.1, v.2.1, s₂.map (·.w)))
+    generalize eqOut inc (s₁.map (·.y)) v = p₁ at h₁ ⊢
+    generalize eqOut inc (s₁.map (·.y)) (v.1, v.2.1, s₂.map (·.w)) = p₂ at h₂ ⊢
+    obtain ⟨x₁, r₁⟩ := p₁
+    obtain ⟨x₂, r₂⟩ := p₂
+    simp only at h₁ h₂
+    have h₂' := h₂
+    rw [hy] at h₂'
+    obtain ⟨_, uniq₁⟩ := fit_weighted_opt_unique h₁
+    obtain ⟨opt₂, _⟩ := fit_weighted_opt_unique h₂'
+    have hl₁ : x₁.length = s₁.length := by rw [isoReg_length h₁, List.length_map]
+    have hl₂ : x₂.length = s₁.length := by rw [isoReg_length h₂, List.length_map]
+    have hm₁ := fit_isoReg_monotone h₁
+    have hm₂ := fit_isoReg_monotone h₂
+    have ties₁ : ∀ i j (hi : i < s₁.length) (hj : j < s₁.length),
+        s₁[i].x = s₁[j].x → s₁[i].y = s₁[j].y → x₁[i]! = x₁[j]! :=
+      fun i j hi hj hx _ => fit_ties_of_sorted s₁ hs₁ _ h₁ i j hi hj hx
+    have ties₂ : ∀ i j (hi : i < s₁.length) (hj : j < s₁.length),
+        s₁[i].x = s₁[j].x → s₁[i].y = s₁[j].y → x₂[i]! = x₂[j]! := by
+      intro i j hi hj hx _
+      refine fit_ties_of_sorted s₂ hs₂ _ h₂' i j (by omega) (by omega) ?_
+      rw [(hxget i hi (by omega)).1, (hxget j hj (by omega)).1, hx]
+    have T1 := fit_total_perm (fit_scoreOf fn α) s₁ s₂ hs hkeys x₂ hl₂ ties₂
+    have T2 := fit_total_perm (fit_scoreOf fn α) s₁ s₂ hs hkeys x₁ hl₁ ties₁
+    have hx : x₂ = x₁ := by
+      refine uniq₁ x₂ (by rw [hl₂, List.length_map]) hm₂ ?_
+      rw [T1, T2]
+      exact opt₂ x₁ (by rw [hl₁, List.length_map, hlen12]) hm₁
+    subst hx
+    rw [BlockVec.unique (isoReg_blockVec h₁) (isoReg_blockVec h₂)]
+
+/-- **Row order does not matter — no proviso**: two training samples whose rows are permutations of
+each other give the same result of `fit` (thresholds or error), for every functional, direction and
+weights; duplicate `(X, y)` rows may carry different weights. -/
+theorem fit_isoFit_row_order_free_general (fn : Option Functional) (α : K) (inc : Bool)
+    (X₁ y₁ X₂ y₂ : List K) (w₁ w₂ : Option (List K))
+    (hX₁ : X₁.length = y₁.length) (hX₂ : X₂.length = y₂.length)
+    (hw₁ : ∀ w', w₁ = some w' → w'.length = y₁.length)
+    (hw₂ : ∀ w', w₂ = some w' → w'.length = y₂.length)
+    (hsome : w₁.isSome = w₂.isSome)
+    (hperm : (fit_rows X₁ y₁ w₁).Perm (fit_rows X₂ y₂ w₂)) :
+    isoFit fn α inc X₁ y₁ w₁ = isoFit fn α inc X₂ y₂ w₂ := by
+  cases w₁ with
+  | none =>
+    cases w₂ with
+    | some b => simp at hsome
+    | none =>
+      refine fit_isoFit_row_order_free fn α inc X₁ y₁ X₂ y₂ none none hX₁ hX₂ hw₁ hw₂ rfl hperm ?_
+      intro a ha b hb _ _
+      rw [fit_rows_none_w X₁ y₁ a ha, fit_rows_none_w X₁ y₁ b hb]
+  | some a =>
+    cases w₂ with
+    | none => simp at hsome
+    | some b =>
+      have hkeys := fit_mergeSort_perm_keys inc hperm
+      have hs : (fit_sorted inc X₁ y₁ (some a)).Perm (fit_sorted inc X₂ y₂ (some b)) :=
+        (List.mergeSort_perm _ _).trans (hperm.trans (List.mergeSort_perm _ _).symm)
+      have hR := fit_isoReg_perm_weights fn α inc _ _ hs (fit_sorted_pairwise inc _)
+        (fit_sorted_pairwise inc _) hkeys
+      have hx : (fit_sorted inc X₁ y₁ (some a)).map (·.x) = (fit_sorted inc X₂ y₂ (some b)).map (·.x) := by
+        have := congrArg (List.map Prod.fst) hkeys
+        simpa [List.map_map, Function.comp_def, fit_sorted] using this
+      rw [fit_isoFit_eq fn α inc X₁ y₁ _ hX₁ hw₁, fit_isoFit_eq fn α inc X₂ y₂ _ hX₂ hw₂]
+      simp only [Option.map_some]
+      rw [hR, hx]
+
+end RowOrderGeneral
+
 end MD
